@@ -43,6 +43,8 @@ type C13Case struct {
 	AuthOK      []string   `json:"auth_ok"`     // schemes the callback accepts
 	AuthReads   bool       `json:"auth_reads"`  // the callback consumes the request body
 	OtherBranch []string   `json:"other_branch"` // member names that only a non-matching oneOf/anyOf branch would add
+	// the request's GetBody: "" none (as for a server-side request), "ok" replays the body, "fails" returns an error (a body that cannot be replayed)
+	GetBody string `json:"get_body,omitempty"`
 }
 
 type C13Obs struct {
@@ -91,6 +93,13 @@ func (c *C13Case) build() (*routers.Route, func() *http.Request) {
 		if c.Body != "" {
 			req = httptest.NewRequest("POST", "/d", strings.NewReader(c.Body))
 			req.Header.Set("Content-Type", c.CT)
+			switch c.GetBody {
+			case "ok":
+				body := c.Body
+				req.GetBody = func() (io.ReadCloser, error) { return io.NopCloser(strings.NewReader(body)), nil }
+			case "fails":
+				req.GetBody = func() (io.ReadCloser, error) { return nil, errors.New("this body cannot be replayed") }
+			}
 		} else {
 			req = httptest.NewRequest("POST", "/d", nil)
 		}
@@ -576,6 +585,7 @@ func c13Random(r *Rng) C13Case {
 		}
 		c.Params = append(c.Params, p)
 	}
+	c.GetBody = Pick(r, []string{"", "", "", "ok", "fails"})
 	// body
 	if r.Chance(80) {
 		c.BodySchema = c13Obj(r, 2)
@@ -619,6 +629,9 @@ func c13Directed() []C13Case {
 	brB2 := &GSchema{HasTypes: true, Types: []string{"object"}, Required: []string{"zkind"}, Props: map[string]*GSchema{"zkind": kind("b"), "list": arrOf(elB)}}
 	brA3 := &GSchema{HasTypes: true, Types: []string{"object"}, Required: []string{"zkind"}, Props: map[string]*GSchema{"zkind": kind("a"), "list": arrOf(arrOf(elA))}}
 	brB3 := &GSchema{HasTypes: true, Types: []string{"object"}, Required: []string{"zkind"}, Props: map[string]*GSchema{"zkind": kind("b"), "list": arrOf(arrOf(elB))}}
+	// array items that tell their branch by a member sorted after the defaulted one
+	elKA := &GSchema{HasTypes: true, Types: []string{"object"}, Required: []string{"zk"}, Props: map[string]*GSchema{"zk": kind("a"), "xa": intD(1), "name": {HasTypes: true, Types: []string{"string"}}}}
+	elKB := &GSchema{HasTypes: true, Types: []string{"object"}, Required: []string{"zk"}, Props: map[string]*GSchema{"zk": kind("b"), "yb": intD(2), "name": {HasTypes: true, Types: []string{"string"}}}}
 	var out []C13Case
 	for _, skip := range []bool{false, true} {
 		out = append(out,
@@ -627,6 +640,11 @@ func c13Directed() []C13Case {
 			C13Case{CT: "application/json", Skip: skip, BodySchema: &GSchema{OneOf: []*GSchema{brB2, brA2}}, Body: `{"list":[{}],"zkind":"a"}`, OtherBranch: []string{"yb"}},
 			C13Case{CT: "application/json", Skip: skip, BodySchema: &GSchema{OneOf: []*GSchema{brA3, brB3}}, Body: `{"list":[[{"name":"n"}],[{}]],"zkind":"b"}`, OtherBranch: []string{"xa"}},
 			C13Case{CT: "application/json", Skip: skip, BodySchema: arrOf(&GSchema{OneOf: []*GSchema{brA2, brB2}}), Body: `[{"list":[{}],"zkind":"b"}]`, OtherBranch: []string{"xa"}},
+			// the value under oneOf / anyOf is itself an array (of objects, of arrays of objects), also nested in an object
+			C13Case{CT: "application/json", Skip: skip, BodySchema: &GSchema{OneOf: []*GSchema{arrOf(elKA), arrOf(elKB)}}, Body: `[{"name":"n","zk":"b"},{"zk":"b"}]`, OtherBranch: []string{"xa"}},
+			C13Case{CT: "application/json", Skip: skip, BodySchema: &GSchema{AnyOf: []*GSchema{arrOf(elKA), arrOf(elKB)}}, Body: `[{"zk":"b"}]`, OtherBranch: []string{"xa"}},
+			C13Case{CT: "application/json", Skip: skip, BodySchema: &GSchema{OneOf: []*GSchema{arrOf(arrOf(elKA)), arrOf(arrOf(elKB))}}, Body: `[[{"zk":"b"}],[]]`, OtherBranch: []string{"xa"}},
+			C13Case{CT: "application/json", Skip: skip, BodySchema: &GSchema{HasTypes: true, Types: []string{"object"}, Props: map[string]*GSchema{"jobs": {OneOf: []*GSchema{arrOf(elKB), arrOf(elKA)}}}}, Body: `{"jobs":[{"zk":"a"},{"name":"n","zk":"a"}]}`, OtherBranch: []string{"yb"}},
 			C13Case{CT: "application/json", Skip: skip, BodySchema: &GSchema{OneOf: []*GSchema{brA, brB}}, Body: `{"kind":"b"}`, OtherBranch: []string{"xa"}},
 			C13Case{CT: "application/json", Skip: skip, BodySchema: &GSchema{OneOf: []*GSchema{brA, brB}}, Body: `{"kind":"a"}`, OtherBranch: []string{"yb"}},
 			C13Case{CT: "application/json", Skip: skip, BodySchema: &GSchema{AnyOf: []*GSchema{brA, brB}}, Body: `{"kind":"b"}`, OtherBranch: []string{"xa"}},
